@@ -298,13 +298,136 @@ fn pools(r: &mut Report, thorough: bool) {
     huginn_net_tcp::uptime::verif_clock::clear_global();
 }
 
+/// The documented way to get a pool: `with_config(...)` + `init_pool(...)` + `worker_pool()`. More connections are open
+/// at the same time than the QUEUE holds but fewer than `max_connections`: if the analyzer hands its settings to the
+/// pool in the wrong places (capacity, queue, batch), results are lost that the sequential analyzer reports.
+fn configured_route(r: &mut Report) {
+    let d = crate::drv::db_arc();
+    let trace = interleave(&conn_frames());
+    let (max_conn, workers, queue, batch, timeout) = (64usize, 1usize, 4usize, 2usize, 5u64);
+    let cfg = json!({"kind": "configured-route", "max_connections": max_conn, "workers": workers, "queue_size": queue, "batch_size": batch});
+    let wait_drained = |queued: &dyn Fn() -> usize| {
+        let t = std::time::Instant::now();
+        while queued() > 0 && t.elapsed().as_secs() < 10 {
+            std::thread::sleep(std::time::Duration::from_micros(200));
+        }
+    };
+    // HTTP
+    {
+        let seq: Vec<String> = {
+            let mut a = HttpSeq::new(Some(crate::drv::db()), max_conn);
+            trace.iter().map(|f| a.feed(f)).filter(|x| !x.is_empty()).map(|x| format!("{x:?}")).collect()
+        };
+        let res = guarded(|| -> Result<Vec<String>, String> {
+            let (tx, rx) = std::sync::mpsc::channel();
+            let mut an = huginn_net_http::HuginnNetHttp::with_config(Some(d.clone()), max_conn, workers, queue, batch, timeout).map_err(|e| e.to_string())?;
+            an.init_pool(tx).map_err(|e| e.to_string())?;
+            let pool = an.worker_pool().ok_or("no pool")?.clone();
+            for f in &trace {
+                wait_drained(&|| pool.stats().workers.iter().map(|w| w.queue_size).sum());
+                if pool.dispatch(f.clone()) != huginn_net_http::DispatchResult::Queued {
+                    return Err("dropped although at most one packet is in flight".into());
+                }
+            }
+            drop(pool);
+            drop(an);
+            Ok(rx.iter().map(|x| http_res(&x)).filter(|x| !x.is_empty()).map(|x| format!("{x:?}")).collect())
+        });
+        compare_route(r, "http", &cfg, res, seq);
+    }
+    // TLS
+    {
+        let seq: Vec<String> = {
+            let mut a = TlsSeq::new(max_conn);
+            trace.iter().map(|f| a.feed(f)).filter(|x| !x.is_empty()).map(|x| format!("{x:?}")).collect()
+        };
+        let res = guarded(|| -> Result<Vec<String>, String> {
+            let (tx, rx) = std::sync::mpsc::channel();
+            let mut an = huginn_net_tls::HuginnNetTls::with_config_and_max_connections(workers, queue, batch, timeout, max_conn);
+            an.init_pool(tx).map_err(|e| e.to_string())?;
+            let pool = an.worker_pool().ok_or("no pool")?;
+            for f in &trace {
+                wait_drained(&|| pool.stats().workers.iter().map(|w| w.queue_size).sum());
+                if pool.dispatch(f.clone()) != huginn_net_tls::DispatchResult::Queued {
+                    return Err("dropped although at most one packet is in flight".into());
+                }
+            }
+            drop(pool);
+            drop(an);
+            Ok(rx.iter().map(|x| format!("{:?}", tls_out(&x))).collect())
+        });
+        compare_route(r, "tls", &cfg, res, seq);
+    }
+    // TCP: 12 hosts, a timestamped SYN each, one second later a timestamped ACK each (the uptime table must hold all 12)
+    {
+        let mk = |k: u8, flags: u8, ts: u32| pkt::build(&Spec { src: 100 + k, dst: 9, sport: 41000 + k as u16, dport: 80, flags, seq: 1000, ack: if flags & ACK != 0 { 7 } else { 0 }, opts: ts_opts(ts, 0), ..Spec::default() });
+        let first: Vec<Vec<u8>> = (0..12u8).map(|k| mk(k, SYN, 1_000_000 + k as u32 * 17)).collect();
+        let second: Vec<Vec<u8>> = (0..12u8).map(|k| mk(k, ACK, 1_001_000 + k as u32 * 17)).collect();
+        let seq: Vec<String> = {
+            let mut a = TcpSeq::new(Some(crate::drv::db()), max_conn);
+            crate::drv::set_clock(T0);
+            let mut v: Vec<String> = first.iter().map(|f| a.feed(f)).filter(|x| !x.is_empty()).map(|x| format!("{x:?}")).collect();
+            crate::drv::set_clock(T0 + 1000);
+            v.extend(second.iter().map(|f| a.feed(f)).filter(|x| !x.is_empty()).map(|x| format!("{x:?}")));
+            crate::drv::set_clock(T0);
+            v
+        };
+        if seq.iter().filter(|x| x.contains("client_uptime: Some")).count() < 12 {
+            r.machinery_error("configured-route: the sequential TCP reference reports fewer than 12 uptime estimates");
+        }
+        let res = guarded(|| -> Result<Vec<String>, String> {
+            let (tx, rx) = std::sync::mpsc::channel();
+            let mut an = huginn_net_tcp::HuginnNetTcp::with_config(Some(d.clone()), max_conn, workers, queue, batch, timeout).map_err(|e| e.to_string())?;
+            an.init_pool(tx).map_err(|e| e.to_string())?;
+            let pool = an.worker_pool().ok_or("no pool")?;
+            let mut got = vec![];
+            for (clock, frames) in [(T0, &first), (T0 + 1000, &second)] {
+                huginn_net_tcp::uptime::verif_clock::set_global(clock);
+                for f in frames.iter() {
+                    if pool.dispatch(f.clone()) != huginn_net_tcp::DispatchResult::Queued {
+                        return Err("dropped although at most one packet is in flight".into());
+                    }
+                    // every TCP packet yields a result: lock-step keeps the clock phase exact
+                    match rx.recv_timeout(std::time::Duration::from_secs(10)) {
+                        Ok(x) => got.push(tcp_res(&x)),
+                        Err(_) => return Err("no result within 10 s".into()),
+                    }
+                }
+            }
+            huginn_net_tcp::uptime::verif_clock::set_global(T0);
+            drop(pool);
+            drop(an);
+            Ok(got.into_iter().filter(|x| !x.is_empty()).map(|x| format!("{x:?}")).collect())
+        });
+        compare_route(r, "tcp", &cfg, res, seq);
+    }
+}
+fn compare_route(r: &mut Report, pool: &str, cfg: &Value, res: Result<Result<Vec<String>, String>, String>, seq: Vec<String>) {
+    r.exec(seq.len() as u64);
+    match res {
+        Err(p) => r.dev(format!("C10/configured-route/{pool}/panic"), "panic", || json!({"config": cfg, "detail": p})),
+        Ok(Err(e)) => r.dev(format!("C10/configured-route/{pool}/dispatch-failed"), "dispatch", || json!({"config": cfg, "detail": e})),
+        Ok(Ok(got)) => {
+            r.outcome(&("route", pool, got.len()));
+            let (mut a, mut b) = (got.clone(), seq.clone());
+            a.sort();
+            b.sort();
+            if a != b {
+                let missing = b.iter().filter(|x| !a.contains(x)).count();
+                r.dev(format!("C10/configured-route/{pool}/results-differ-from-sequential"), "multiset", || json!({"config": cfg, "sequential": seq.len(), "pool": got.len(), "missing": missing, "first_missing": b.iter().find(|x| !a.contains(x)).map(|s| &s[..s.len().min(300)])}));
+            }
+        }
+    }
+}
+
 pub fn run(thorough: bool) -> Outcome {
     let mut r = Report::new();
     routing(&mut r, thorough);
     pools(&mut r, thorough);
+    configured_route(&mut r);
     Outcome {
         report: r,
-        rule: "routing: every ordered same-family pair of 144 endpoints (12 IPv4 + 6 IPv6 addresses with all bytes varied x 8 ports), raw and Ethernet, x worker counts: SYN, SYN+ACK, request, response, further segment and FIN of a connection on one HTTP worker; all client segments on one TLS worker; everything a host sends on one TCP worker. pools: a 12-connection interleaved trace through real TCP / HTTP / TLS pools for worker counts x batch {1,2,32} x timeout {1,10} ms (schedules sampled, not enumerated) compared with the sequential analyzers as multiset and per connection / sender order; distinct = distinct routing / delivery outcomes".into(),
+        rule: "routing: every ordered same-family pair of 144 endpoints (12 IPv4 + 6 IPv6 addresses with all bytes varied x 8 ports), raw and Ethernet, x worker counts: SYN, SYN+ACK, request, response, further segment and FIN of a connection on one HTTP worker; all client segments on one TLS worker; everything a host sends on one TCP worker. pools: a 12-connection interleaved trace through real TCP / HTTP / TLS pools for worker counts x batch {1,2,32} x timeout {1,10} ms (schedules sampled, not enumerated) compared with the sequential analyzers as multiset and per connection / sender order; configured route: with_config + init_pool + worker_pool of each analyzer with 12 simultaneously open connections, queue size 4, capacity 64 (TCP: timestamped SYN and ACK one second apart under the injected clock), lock-step dispatch, results equal to the sequential analyzer; distinct = distinct routing / delivery outcomes".into(),
         exhaustive: true,
         bounds: json!({"endpoints": endpoints().len(), "note": "the pool part samples schedules; schedule coverage comes from the loom engine"}),
     }
